@@ -42,10 +42,10 @@ def run(rep, tier):
     theories = list(QUICK_THEORIES)
     if quick:
         theories.append(rnd.choice(MORE[:4]))
-        n_per, nsess = 10, 64
+        n_per, nsess = 10, 72
     else:
         theories += MORE
-        n_per, nsess = 80, 800
+        n_per, nsess = 80, 900
     evp = wd / "suggest.ndjson"
     run_driver("c13", ["suggest", evp, seed(), n_per, ",".join(theories), nsess], timeout=7200)
     evs = read_events(evp)
@@ -76,9 +76,11 @@ def run(rep, tier):
          "closed_arith_solving": cnt(lambda e: e["thm"].startswith("gen.closed_arith") and e["outcome"] == "success" and not e["adv_goal"] and not e["new_gaps"]),
          "introduction_on_known_antecedent": cnt(lambda e: e["thm"].startswith("gen.intro_known") and e["method"] == "introduction"),
          "exists_elim_applied": cnt(lambda e: e["method"] == "exists_elim"),
+         "naming_a_shadowing_variable": cnt(lambda e: e["thm"].startswith("gen.shadow") and e["step"] >= 1
+                                            and e["method"] in ("induction", "forall_elim", "inst_exists_goal", "new_var")),
          "step_checked": cnt(lambda e: e["outcome"] == "success" and e.get("recheck_before"))}
     rep.notes["generated_states"] = g
-    for k, lo in (("forward_fact_on_redex_states", 3), ("closed_arith_solving", 1), ("introduction_on_known_antecedent", 3), ("exists_elim_applied", 8),
+    for k, lo in (("forward_fact_on_redex_states", 3), ("closed_arith_solving", 1), ("introduction_on_known_antecedent", 3), ("exists_elim_applied", 8), ("naming_a_shadowing_variable", 3),
                   ("step_checked", 100)):
         require(g[k] >= (lo if quick else 10 * lo), "C14: generated states hardly exercise %s: %s" % (k, g))
     require(rep.notes["traces"]["suggest"]["nontrivial"] >= (150 if quick else 3000), "C14: too few applied suggestions")
